@@ -25,9 +25,15 @@ namespace vt
   {
     elem (void) = default;
     explicit elem (int);
+#ifdef VT_NO_ASSIGN
+    elem (const elem&) = default;
+    elem& operator= (const elem&) = delete;     // trivially constructible and copyable, not assignable (minimal-requirement archetype)
+#endif
     int payload;
   };
+#ifndef VT_NO_ASSIGN
   static_assert (std::is_trivially_copyable<elem>::value && std::is_trivial<elem>::value, "trivial twin");
+#endif
 #else
   // Non-trivial element.  Flavour is chosen by the macros above (one flavour per TU).
   struct elem
